@@ -116,3 +116,44 @@ Example exC_result :
   r.2 = PPanicked ∧ pc r.1 = [2%nat] ∧ h_tc (hdr_of r.1 2%nat) = 0%N ∧
   h_mark (hdr_of r.1 0%nat) = NM ∧ h_mark (hdr_of r.1 1%nat) = NM.
 Proof. by vm_compute. Qed.
+
+(** ** Non-vacuity of [pass_complete]: [exA] satisfies the count hypothesis with equality and
+    the two cycle members are unpinned, as is everything that reaches them. *)
+Lemma exA_count_eq o :
+  alloc exA o → h_rc (hdr_of exA o) = (N.of_nat (in_fields exA o) + extA o)%N.
+Proof. intros Ho%exA_alloc. destruct o as [|[|[|o]]]; [by vm_compute..|lia]. Qed.
+
+Lemma exA_get p x : get exA p = Some x → (p < 3)%nat.
+Proof. intros H. by apply lookup_lt_Some in H. Qed.
+
+Lemma exA_unpinned o : o ∈ [0; 1]%nat → unpinned exP exA extA o.
+Proof.
+  intros Ho. set_unfold. split; [by destruct Ho as [->|[->|[]]]|]. split.
+  - intros p x j Hx Hj. pose proof (exA_get p x Hx) as Hp.
+    destruct p as [|[|[|p]]]; [| | |lia]; injection Hx as <-;
+      destruct j as [|[|j]]; destruct Ho as [->|[->|[]]]; try done;
+      (split; [apply reach_pc; change (pc exA) with [0; 1; 2]%nat; set_solver|done]).
+  - intros p x Hx. pose proof (exA_get p x Hx) as Hp.
+    destruct p as [|[|[|p]]]; [| | |lia]; by injection Hx as <-.
+Qed.
+
+Lemma exA_treach u v : treach exP exA u v → v ∈ [0; 1]%nat → u ∈ [0; 1]%nat.
+Proof.
+  induction 1 as [|p c _ IH Hc]; [done|]. intros Hv. apply IH.
+  assert (Hp : p ∈ [0; 1; 2]%nat).
+  { destruct (decide (p < 3)%nat) as [Hlt|Hge].
+    - destruct p as [|[|[|p]]]; [set_solver..|lia].
+    - exfalso. unfold kids, traced_children, get in Hc.
+      rewrite lookup_ge_None_2 in Hc by (cbn; lia). set_solver. }
+  set_unfold. destruct Hp as [->|[->|[->|[]]]]; [tauto|tauto|].
+  vm_compute in Hc. set_solver.
+Qed.
+
+Example exA_complete : ∀ v, v ∈ [0; 1]%nat → ∀ m' L,
+  trace_pass exK exP exA = (m', PDone L) → v ∈ L.
+Proof.
+  intros v Hv m' L Hr.
+  apply (pass_complete exK exP exA extA m' L exA_pre exA_count_eq Hr v).
+  - apply reach_pc. change (pc exA) with [0; 1; 2]%nat. clear -Hv. set_solver.
+  - intros u _ Ht. apply exA_unpinned. by eapply exA_treach.
+Qed.
